@@ -8,7 +8,7 @@ ASSUMPTIONS = [
     "equality is field-by-field equality of deep model_dump()s (floats by bit pattern) of the config and of the task (variables, bounds, weights, data, seed, direction)",
     "the harness's own call log is kept outside `task.data`",
 ]
-MODULES = ["PvModel.Props.C09", "PvModel.Props.T09"]
+MODULES = ["PvModel.Props.C09", "PvModel.Props.T09", "PvModel.Props.T14"]
 
 
 def shared_config_probe(name):
